@@ -34,11 +34,19 @@ def bounds(tier):
                 invalid=['int', 'float', 'None-in-list', 'nested list', 'wrong string type', 'object()'])
 
 
+PATTERNS_T = ['a+?b', '(?i)aB', 'a{2}', '[^a]b', '(a|b)\\1', 'b\\b', '\\Aa', 'b\\Z', '(?:a)(?P<n>b)', 'a.?b', '\\d?x', '[A-Z]+']
+STREAMS_T = ['aab', 'AB\nab', 'bb a', 'xa\r\nb', 'ab' * 3, 'B']
+
+
 def tasks(tier):
     t = []
     for mode in ('bytes', 'utf-8'):
         for ic in (False, True):
-            t.append(dict(kind='forms', mode=mode, ignorecase=ic))
+            if tier == 'quick':
+                t.append(dict(kind='forms', mode=mode, ignorecase=ic))
+            else:
+                for part in range(8):
+                    t.append(dict(kind='forms', mode=mode, ignorecase=ic, thorough=True, part=part, parts=8))
         t.append(dict(kind='invalid', mode=mode))
     return t
 
@@ -87,22 +95,34 @@ def run_stream(task, call, stream, cuts, ic=False, pending=None):
     return (i, sp.before, sp.after, None, m, reads[0]), sp
 
 
+ALLCUTS = [False]
+
+
 def cutsets(stream):
     n = len(stream.encode('utf-8'))
     out = [[]]
     if n > 1:
         out.append(list(range(1, n)))
         out.append([n // 2])
+        if ALLCUTS[0]:
+            for c in range(1, n):
+                if [c] not in out:
+                    out.append([c])
     return out
 
 
 def run_forms(task, acc, only=None):
+    ALLCUTS[0] = bool(task.get('thorough'))
     bytes_mode = task['mode'] == 'bytes'
     ic = task['ignorecase']
     nat = (lambda s: s.encode('utf-8')) if bytes_mode else (lambda s: s)
     oth = (lambda s: s) if bytes_mode else (lambda s: s.encode('utf-8'))
-    for p in PATTERNS:
-        for stream in STREAMS:
+    pats = PATTERNS + (PATTERNS_T if task.get('thorough') else [])
+    strs = STREAMS + (STREAMS_T if task.get('thorough') else [])
+    for pi, p in enumerate(pats):
+        if task.get('thorough') and pi % task['parts'] != task['part']:
+            continue
+        for stream in strs:
             if only is not None and only != (p, stream):
                 continue
             for cuts in cutsets(stream):
@@ -179,7 +199,9 @@ def run_forms(task, acc, only=None):
                     acc.outcomes['compiled:%s' % (want[0],)] += 1
     # ---- expect_exact forms ------------------------------------------------------
     for p in EXACT:
-        for stream in STREAMS:
+        if task.get('thorough') and task['part'] != 0:
+            break
+        for stream in strs:
             if only is not None and only != (p, stream):
                 continue
             for cuts in cutsets(stream):
